@@ -387,7 +387,31 @@ _PURE_BUILTINS = {"builtins." + n for n in ("len", "abs", "min", "max", "sum", "
                                              "sorted", "reversed", "any", "all", "map", "filter", "round", "ValueError", "TypeError", "Exception", "NotImplementedError", "AssertionError", "frozenset")}
 
 
-def check_equiv(rep, rule, construct, what, code, spec, where="", eq=None, assume=None, cond_alias=None, key=None, int_subjects=None):
+_CONVERSIONS = {("glob", "builtins." + n) for n in ("str", "int", "float", "list", "tuple", "bool")} | {("glob", "numpy.asarray"), ("glob", "numpy.array")}
+
+
+def _strip_conversions(t):
+    if head(t) == "call" and strip(t[1]) in _CONVERSIONS and len(t[2]) == 1 and not t[3]:
+        return t[2][0]
+    return t
+
+
+def _conversions_only(eq, mism):
+    """Every mismatch disappears when value conversions (str(x), int(x), ...) are read as the identity."""
+    try:
+        if not any(x[0] == "call" and strip(x[1]) in _CONVERSIONS for _, a_, _ in mism for x in walk(a_)):
+            return False
+        for _, a_, b_ in mism:
+            a2, b2 = rewrite(strip_all(a_), _strip_conversions), rewrite(strip_all(b_), _strip_conversions)
+            m, _ = compare_trees(eq.prep(a2), eq.prep(b2), eq.leaf_eq)
+            if m:
+                return False
+        return True
+    except AnalysisBroken:
+        return False
+
+
+def check_equiv(rep, rule, construct, what, code, spec, where="", eq=None, assume=None, cond_alias=None, key=None, int_subjects=None, alt=None):
     eq = eq or Equiv()
     run = getattr(rep, "run", None)
     if eq.run is None and run is not None:
@@ -402,12 +426,29 @@ def check_equiv(rep, rule, construct, what, code, spec, where="", eq=None, assum
     if os.environ.get("PRSA_RECORD_VOCAB"):
         eq.new_vocabulary()
         _RECORDED[eq.vocab_key] = sorted(eq.code_vocab)
+    if mism and alt is not None:
+        # the function states assertions: is it equal to the specification on the runs where they hold?
+        import copy
+        eq2 = copy.copy(eq)
+        try:
+            m2, _ = eq2.compare(alt(), spec, assume=assume, alias=cond_alias, int_subjects=int_subjects)
+        except AnalysisBroken:
+            m2 = True
+        if not m2 or _conversions_only(eq2, m2):
+            rep.require(False, f"{construct}: equal to the specification on every run on which the function's own assert statements hold (a failing assertion raises); "
+                               f"whether they always hold is outside this analysis; cannot decide [{rule}]")
+            return None
     if mism:
         extra = eq.new_vocabulary()
         if extra:
             # verdict discipline: a difference that involves constructs outside the rule's vocabulary is not decided
             rep.require(False, f"{construct}: differs from the specification, but uses constructs outside this rule's vocabulary "
                                f"({', '.join(v[1] if v[0] != 'm' else '.' + v[1] + '()' for v in extra[:6])}); cannot decide [{rule}]")
+            return None
+        # a difference that consists of value conversions only (str(x), int(x), float(x), list(x), ...) depends on the run-time type of x,
+        # which this analysis does not know: not decided
+        if _conversions_only(eq, mism):
+            rep.require(False, f"{construct}: differs from the specification only by value conversions (str / int / float / list ...), whose effect depends on run-time types; cannot decide [{rule}]")
             return None
         desc, a, b = mism[0]
         eq.leaf_eq(a, b)
@@ -588,7 +629,13 @@ def compare_function(r, rule, qual, spec_src, what, fname=None, eq=None, spec_mo
     spec = subst(spec, canon_params(sp))
     eq = eq or Equiv(rewrites=std_rewrites())
     eq.bind(r, cls=s.func.cls)
-    return check_equiv(r.rep, rule, qual, what, code, spec, where_of(r.P, s.func, s.func.node), eq=eq, assume=assume, key=key, cond_alias=cond_alias)
+    alt = None
+    if s.events_of("assert"):
+        def alt():
+            v = s.assuming_assertions()
+            c2 = close_loops(v, v.ret) if close else v.ret
+            return subst(c2, canon_params(s))
+    return check_equiv(r.rep, rule, qual, what, code, spec, where_of(r.P, s.func, s.func.node), eq=eq, assume=assume, key=key, cond_alias=cond_alias, alt=alt)
 
 
 def path_refine(tree, guards=()):
@@ -853,6 +900,15 @@ def _value_mapped_dict(b):
             rest = subst(v, {("item", ce, 1): ("const", "NoneType", None)})
             if not any(x == ce for x in walk(rest)):
                 return ("call", ("glob", "builtins.dict"), (ce[3],), ()), ce, v
+    if head(b) == "dmerge" and len(b[1]) == 1 and b[1][0][0] == "ref":
+        # dict(zip(K, (f(v) for v in V)))  ->  (dict(zip(K, V)), binder, f(v))
+        z = strip(b[1][0][1])
+        if head(z) == "call" and strip(z[1]) == ("glob", "builtins.zip") and len(z[2]) == 2 and not z[3]:
+            c = strip(z[2][1])
+            if head(c) == "comp" and c[1] in ("list", "gen") and len(c[3]) == 1 and not c[3][0][1]:
+                ce = c[3][0][0]
+                CE = ("citer", ("#valuemap", repr(ce[1])[:40]), 0, NONE)
+                return ("dmerge", (("ref", ("call", z[1], (z[2][0], ce[3]), ())),)), CE, subst(c[2], {ce: ("item", CE, 1)})
     return None
 
 
@@ -890,6 +946,12 @@ def small_rewrites(t):
                 return r
         if head(f) == "glob":
             n = f[1]
+            if n in ("numpy.ones", "numpy.zeros", "numpy.empty") and t[3]:
+                # the default element type of numpy.ones / zeros / empty is float64
+                kw = tuple((k, v) for k, v in t[3] if not (k == "dtype" and (strip(v) in (("glob", "numpy.float64"), ("glob", "builtins.float"), ("glob", "numpy.double"), ("glob", "numpy.float_"))
+                                                                              or (is_const(strip(v)) and strip(v)[2] in ("float", "float64", "f8", "d")))))
+                if kw != t[3]:
+                    return small_rewrites(("call", t[1], t[2], kw))
             if n in ("builtins.min", "builtins.max") and len(t[2]) == 2 and not t[3]:
                 a, b = t[2]
                 return ("ite", ("cmp", "<=", a, b), a, b) if n.endswith("min") else ("ite", ("cmp", ">=", a, b), a, b)
@@ -908,6 +970,12 @@ def small_rewrites(t):
                     return t[2][0]
                 if head(a_) == "call" and head(strip(a_[1])) == "glob" and strip(a_[1])[1].startswith("rapidfuzz.distance.") and strip(a_[1])[1].endswith(".distance"):
                     return t[2][0]
+            if n == "builtins.map" and len(t[2]) == 2 and not t[3] and head(strip(t[2][0])) == "attr" and strip(t[2][0])[2] == "__contains__":
+                # map(S.__contains__, xs)  ==  (x in S for x in xs)
+                S_, xs = strip(t[2][0])[1], t[2][1]
+                cid = ("#mapcontains", repr(strip_all(xs))[:60])
+                ce = ("citer", cid, 0, xs)
+                return ("comp", "gen", ("cmp", "in", ce, S_), ((ce, ()),), cid)
             if n == "operator.itemgetter" and len(t[2]) == 1 and not t[3] and is_const(strip(t[2][0])):
                 # operator.itemgetter(k) == lambda x: x[k]
                 lamid = ("#itemgetter", repr(strip(t[2][0])[2]))
@@ -921,6 +989,9 @@ def small_rewrites(t):
                 return ("comp", "list", x[2], x[3], x[4])
             if n in ("builtins.list", "builtins.tuple") and len(t[2]) == 1 and not t[3] and head(strip(t[2][0])) == n.rsplit(".", 1)[1]:
                 return strip(t[2][0])      # list([a, b]) == [a, b]
+            if n in ("builtins.list", "builtins.tuple") and len(t[2]) == 1 and not t[3] and head(strip(t[2][0])) in ("list", "tuple") \
+                    and not any(head(strip(x)) == "star" for x in strip(t[2][0])[1]):
+                return (n.rsplit(".", 1)[1], strip(t[2][0])[1])      # list((a, b)) == [a, b]
             if n == "builtins.len" and len(t[2]) == 1 and not t[3]:
                 u = strip(t[2][0])
                 # number of distinct values: len(np.unique([f(x) for x in X])) == len({f(x) for x in X})
@@ -1210,6 +1281,13 @@ def canon_folds(t):
         return t
     if h == "comp" and t[1] == "gen":
         return ("comp", "list", t[2], t[3], t[4])
+    if h == "call" and head(strip(t[1])) == "attr" and strip(t[1])[2] == "join" and is_const(strip(strip(t[1])[1])) and len(t[2]) == 1 and not t[3]:
+        # sep.join([x for x in X]) == sep.join(list(X)) == sep.join(X)
+        a = strip(t[2][0])
+        if head(a) == "comp" and a[1] in ("list", "gen") and len(a[3]) == 1 and not a[3][0][1] and strip(a[2]) == a[3][0][0]:
+            return canon_folds(("call", t[1], (a[3][0][0][3],), ()))
+        if head(a) == "call" and strip(a[1]) in (("glob", "builtins.list"), ("glob", "builtins.tuple")) and len(a[2]) == 1 and not a[3]:
+            return canon_folds(("call", t[1], (a[2][0],), ()))
     if h == "call" and strip(t[1]) == ("attr", const(""), "join") and len(t[2]) == 1 and not t[3]:
         # ''.join(parts) where parts is filled by several appends per iteration  ->  the string built by the same concatenations
         f = strip(t[2][0])
